@@ -418,6 +418,29 @@ constsLoop:
 		}
 	}
 
+	// withFuncsDeps returns the dependencies ds and, for each function in
+	// ds, the dependencies of the function: a reference to a function is also
+	// a reference to the variables that the function refers to, directly or
+	// through other functions.
+	var withFuncsDeps func(ds []*ast.Identifier, visited map[string]bool) []*ast.Identifier
+	withFuncsDeps = func(ds []*ast.Identifier, visited map[string]bool) []*ast.Identifier {
+		all := []*ast.Identifier{}
+		for _, d := range ds {
+			if visited[d.Name] {
+				continue
+			}
+			visited[d.Name] = true
+			all = append(all, d)
+			for _, f := range funcs {
+				if f.Ident.Name == d.Name {
+					all = append(all, withFuncsDeps(deps[f.Ident], visited)...)
+					break
+				}
+			}
+		}
+		return all
+	}
+
 	// Sorts variables.
 	sortedVars := []*ast.Var{}
 varsLoop:
@@ -425,7 +448,7 @@ varsLoop:
 		// Searches for next variable with resolved deps.
 		for i, v := range vars {
 			depsOk := true
-			for _, dep := range deps[v.Lhs[0]] {
+			for _, dep := range withFuncsDeps(deps[v.Lhs[0]], map[string]bool{}) {
 				found := false
 			resolvedLoop:
 				for _, resolvedV := range sortedVars {
